@@ -51,8 +51,22 @@ def run_property(prop: str, tier: str) -> int:
         assumptions=mod.ASSUMPTIONS,
         analysis_errors=errors,
         project_stats=a.stats() if a else None,
-        extra_coverage=getattr(mod, 'extra_coverage', lambda *_: {})(reports, tier),
+        extra_coverage={**_consulted(a), **getattr(mod, 'extra_coverage', lambda *_: {})(reports, tier)},
     )
+
+
+def _consulted(a) -> dict:
+    """Which repository functions the rules of this run looked up by name, executed abstractly or interpreted."""
+    from .loader import ANCHORED, CONSULTED, EXECUTED
+    if a is None:
+        return {}
+    have = lambda s_: sorted(q for q in s_ if dict.__contains__(a.p.functions, q))  # noqa: E731
+    ex, an = have(EXECUTED), have(ANCHORED)
+    return {'functions_executed_or_anchored': len(set(ex) | set(an)), 'functions_executed': ex, 'functions_anchored': an,
+            'functions_resolved': len(have(CONSULTED | EXECUTED | ANCHORED)),
+            'functions_rule': 'executed = the function body was executed abstractly (paths) or interpreted (minieval / modelinterp), directly or as a '
+                              'callee; anchored = a rule asked for it by qualified name (its absence is an ANALYSIS-ERROR); resolved = additionally looked '
+                              'up as a call target by the resolver / raise summaries; package-wide scans (who-may rules) count for none of these'}
 
 
 def main(argv=None) -> int:
